@@ -1,8 +1,10 @@
 (* C20 -- manager proxies behave like the local object; referents live as long as proxies.
-   Only statements here; proofs live in Proofs/ManagerProofs.v and Proofs/ManagerTreeProofs.v.
+   Only statements here; proofs live in Proofs/ManagerProofs.v, Proofs/ManagerLifeProofs.v and
+   Proofs/ManagerTreeProofs.v.
    Gen.G_manager is regenerated from /repo/billiard/managers.py on every run. *)
 From Coq Require Import String ZArith List Bool.
-From BV Require Import Lib.ManagerLib Gen.G_manager Model.Manager Proofs.ManagerTreeProofs Proofs.ManagerProofs.
+From BV Require Import Lib.ManagerLib Gen.G_manager Model.Manager Proofs.ManagerTreeProofs Proofs.ManagerProofs
+     Proofs.ManagerLifeProofs.
 Import ListNotations.
 Open Scope Z_scope.
 
@@ -44,6 +46,22 @@ Theorem C20_code_after_fork_hook :
   G_manager.after_fork_hook_unconditional = true /\ G_manager.incref_guarded_then_hook = true.
 Proof. exact gen_after_fork_hook. Qed.
 Print Assumptions C20_code_after_fork_hook.
+
+(* The lock.  The translation of incref / decref / create above is sequential (it flattens
+   `with self.mutex:`), so the lock -- the only code-level mechanism that makes one of them atomic
+   among the server's threads -- is checked structurally on the source found on this run: every
+   access to id_to_obj / id_to_refcount in the three functions (stores, deletes, the reads of the
+   check-then-act tests) and create's call of incref lie inside a `with self.mutex:` block; the
+   mutex is a threading.RLock made once in __init__ (create re-enters it through incref); no other
+   method of Server stores into the tables.  Removing or narrowing a lock makes this fail.  (The
+   driver checks the same dynamically: no table update of the real Server happens while the
+   calling thread does not hold Server.mutex.) *)
+Theorem C20_code_mutex :
+  G_manager.incref_under_mutex = true /\ G_manager.decref_under_mutex = true /\
+  G_manager.create_under_mutex = true /\ G_manager.mutex_is_rlock = true /\
+  G_manager.table_writers = ["__init__"; "create"; "decref"; "incref"]%string.
+Proof. exact gen_mutex_discipline. Qed.
+Print Assumptions C20_code_mutex.
 
 (* the `exposed` sets computed by the real Server.create on this run, and the fallback names *)
 Theorem C20_code_exposed : forall m,
@@ -111,8 +129,153 @@ Theorem C20_untouched_referent_stable : forall y ev id,
 Proof. exact untouched_referent_stable. Qed.
 Print Assumptions C20_untouched_referent_stable.
 
+(* "DISPOSED OF ONCE THE LAST PROXY IS RELEASED", positively.  For every history of user-level
+   operations (create, copy, inherit, unpickle a stale token, drop, call -- by any number of
+   processes) in which no step loses a reference -- [leaks]: a proxy-returning method called
+   through a proxy without a manager (the known defect, refuted below); [H_vanish]: a holder that
+   disappears without a decref (killed client, swallowed decref) -- nothing is left in progress or
+   orphaned, so: the count of every ident is the number of LIVE PROXIES to it, a referent is in the
+   server's table iff some live proxy holds it, and once every proxy is released the tables are
+   the initial ones (number_of_objects() = 0).  This replaces "iff proxies + pending + orphans >= 1"
+   (C20_in_table_iff_held, kept for arbitrary request-grain histories) at user level. *)
+Theorem C20_disposed_iff_no_live_proxy : forall l,
+    Forall hop_ok l -> leaks_any init_sys l = false -> no_vanish l ->
+    let y := fst (hrun init_sys l) in
+    y_pending y = [] /\ y_orphans y = [] /\
+    (forall id, refcount (y_srv y) id = count_z id (map p_id (y_proxies y))) /\
+    (forall id, id <> 0 ->
+                (dmem (objs (y_srv y)) id = true <-> exists p, In p (y_proxies y) /\ p_id p = id)) /\
+    (y_proxies y = [] ->
+     objs (y_srv y) = [(0, Slot0)] /\ rcs (y_srv y) = [] /\ number_of_objects (y_srv y) = 0).
+Proof. exact disposed_iff_no_live_proxy. Qed.
+Print Assumptions C20_disposed_iff_no_live_proxy.
+
+(* the same from any reachable state in which nothing is in progress or orphaned *)
+Theorem C20_disposed_iff_no_live_proxy_from : forall l y0,
+    sysinv y0 -> drained y0 -> Forall hop_ok l -> leaks_any y0 l = false -> no_vanish l ->
+    let y := fst (hrun y0 l) in
+    drained y /\
+    (forall id, refcount (y_srv y) id = count_z id (map p_id (y_proxies y))) /\
+    (forall id, id <> 0 ->
+                (dmem (objs (y_srv y)) id = true <-> exists p, In p (y_proxies y) /\ p_id p = id)).
+Proof. exact disposed_iff_no_live_proxy_from. Qed.
+Print Assumptions C20_disposed_iff_no_live_proxy_from.
+
+(* the drop of the only live proxy disposes of the referent, the drop of one of several does not *)
+Theorem C20_last_drop_disposes : forall y k p,
+    sysinv y -> drained y -> nth_error (y_proxies y) k = Some p ->
+    let y' := fst (hstep y (H_drop k)) in
+    (count_z (p_id p) (map p_id (y_proxies y)) = 1 -> dmem (objs (y_srv y')) (p_id p) = false) /\
+    (1 < count_z (p_id p) (map p_id (y_proxies y)) ->
+     dget (objs (y_srv y')) (p_id p) = dget (objs (y_srv y)) (p_id p)).
+Proof. exact last_drop_disposes. Qed.
+Print Assumptions C20_last_drop_disposes.
+
+(* the two excluded steps are the exact boundary.  (a) the leaking call: the caller gets
+   AttributeError and one creation stays in progress ... *)
+Theorem C20_leaking_step_leaves_creation : forall y h,
+    leaks y h = true ->
+    exists rid, y_pending (fst (hstep y h)) = y_pending y ++ [rid] /\
+                snd (hstep y h) = CO_fail E_Attribute.
+Proof. exact leaking_step_leaves_creation. Qed.
+Print Assumptions C20_leaking_step_leaves_creation.
+
+(* ... (b) a holder that vanishes without a decref (the code: a killed client's serving thread
+   reads EOF and exits, BaseProxy._decref skips / swallows the request): the server is not told,
+   and the referent stays in the table with a positive count WHATEVER happens afterwards.  This is
+   what the code does (driver: a SIGKILLed child holding proxies); the property's "disposed of once
+   the last one is released" does not cover a proxy that is never released. *)
+Theorem C20_vanished_holder_never_released : forall y k p l,
+    sysinv y -> nth_error (y_proxies y) k = Some p -> Forall hop_ok l ->
+    let y1 := fst (hstep y (H_vanish k)) in
+    y_srv y1 = y_srv y /\ y_proxies y1 = remove_nth k (y_proxies y) /\
+    dmem (objs (y_srv (fst (hrun y1 l)))) (p_id p) = true /\
+    1 <= refcount (y_srv (fst (hrun y1 l))) (p_id p).
+Proof. exact vanished_holder_never_released. Qed.
+Print Assumptions C20_vanished_holder_never_released.
+
+Theorem C20_orphan_never_disposed : forall l y id,
+    sysinv y -> Forall hop_ok l -> 1 <= count_z id (y_orphans y) ->
+    dmem (objs (y_srv (fst (hrun y l)))) id = true /\ 1 <= refcount (y_srv (fst (hrun y l))) id.
+Proof. exact orphan_never_disposed. Qed.
+Print Assumptions C20_orphan_never_disposed.
+
 (* --------------------------------------------- proxies behave like the local object *)
-Theorem C20_dispatch_executes : forall s id m a newid o t,
+(* READ THIS FIRST.  [apply_local] is both the specification of a method on a local object and
+   what the model's server executes for the statement `res = function(...)`; that it is CPython's
+   list / dict / Value / iterator is established by the correspondence (server, client, real
+   processes), not by a theorem.  What IS proved about "behaves like the local object":
+   (1) C20_proxy_history_is_local_history -- over ALL request-grain histories of any number of
+       clients, the observations made through the proxies of one referent are those of ONE local
+       object subjected to the same calls in the same order, whatever the other clients do to
+       other referents, however proxies are created, copied and dropped meanwhile: nothing but
+       the calls addressed to a referent ever changes it, no call is lost, duplicated or
+       applied to another referent, the value is never reset;
+   (2) the per-request routing and frame facts below (which referent a request touches, that
+       nothing else changes, when nothing is executed at all), tied to the source through the
+       generated skeleton (C20_code_skeletons). *)
+Theorem C20_proxy_history_is_local_history : forall evs y id o t,
+    sysinv y -> dget (objs (y_srv y)) id = Some (SlotE o t) ->
+    (forall m, m2t_of t m = None) ->
+    Forall ev_ok evs -> Forall (fresh_for id) evs ->
+    let tr := calls_on id y evs in
+    let y' := fst (crun y evs) in
+    map snd tr = fst (local_run o t (map fst tr)) /\
+    (dmem (objs (y_srv y')) id = true ->
+     dget (objs (y_srv y')) id = Some (SlotE (snd (local_run o t (map fst tr))) t)).
+Proof. exact proxy_history_is_local_history. Qed.
+Print Assumptions C20_proxy_history_is_local_history.
+
+(* from the creation on: the local object starts as the value Server.create built *)
+Theorem C20_created_referent_history_is_local : forall evs y ty a newid o,
+    sysinv y -> newid <> 0 -> mk_obj ty a = inl (Some o) -> (forall m, m2t_of ty m = None) ->
+    Forall ev_ok evs -> Forall (fresh_for newid) evs ->
+    let y0 := fst (cstep y (K_create ty a newid)) in
+    let tr := calls_on newid y0 evs in
+    map snd tr = fst (local_run o ty (map fst tr)) /\
+    (dmem (objs (y_srv (fst (crun y0 evs)))) newid = true ->
+     dget (objs (y_srv (fst (crun y0 evs)))) newid
+     = Some (SlotE (snd (local_run o ty (map fst tr))) ty)).
+Proof. exact created_referent_history_is_local. Qed.
+Print Assumptions C20_created_referent_history_is_local.
+
+(* characteristic laws of the local-object specification, for ALL values (independent of how
+   apply_local is written): append/pop round trip, dict store/lookup/delete, Value set/get,
+   an iterator yields its items in order and then StopIteration for ever *)
+Theorem C20_local_spec_laws :
+  (forall l x,
+      local_run (OList l) TList [(M_append, [AZ x], O); (M_len, [], O); (M_pop, [], O); (M_len, [], O)]
+      = ([ok VNone; ok (VInt (Z.of_nat (length l) + 1)); ok (VInt x); ok (VInt (Z.of_nat (length l)))],
+         OList l)) /\
+  (forall d k v,
+      fst (local_run (ODict d) TDict
+                     [(M_setitem, [AZ k; AZ v], O); (M_getitem, [AZ k], O); (M_contains, [AZ k], O);
+                      (M_delitem, [AZ k], O); (M_contains, [AZ k], O); (M_getitem, [AZ k], O)])
+      = [ok VNone; ok (VInt v); ok (VBool true); ok VNone; ok (VBool false); CO_reply (R_error E_Key)]) /\
+  (forall v0 x,
+      local_run (OVal v0) TValue [(M_set, [AZ x], O); (M_get, [], O)] = ([ok VNone; ok (VInt x)], OVal x)) /\
+  (forall l,
+      fst (local_run (OIter l) TIter (repeat (M_next, [], O) (length l) ++ [(M_next, [], O); (M_next, [], O)]))
+      = map (fun x => ok (VInt x)) l ++ [CO_reply (R_error E_StopIteration); CO_reply (R_error E_StopIteration)]).
+Proof.
+  exact (conj law_list_append_pop (conj law_dict_set_get_del (conj law_value_set_get law_iter_yields_items))).
+Qed.
+Print Assumptions C20_local_spec_laws.
+
+(* one step of it: a request addressed to a live referent computes the local step on THAT
+   referent's current value and stores the result in THAT slot *)
+Theorem C20_dispatch_is_local_step : forall s id m a newid o t,
+    dget (objs s) id = Some (SlotE o t) -> m2t_of t m = None ->
+    fst (dispatch s id m a newid) = fst (local_step o t m a) /\
+    dget (objs (snd (dispatch s id m a newid))) id = Some (SlotE (snd (local_step o t m a)) t).
+Proof. exact dispatch_is_local_step. Qed.
+Print Assumptions C20_dispatch_is_local_step.
+
+(* ROUTING AND FRAME of one request (formerly C20_dispatch_executes; the equation
+   "reply = reply_of_local (apply_local ...)" in it is definitional, see above): live ident +
+   exposed attribute => the method is applied to the value stored under THAT ident, the result
+   is stored back under THAT ident, no other entry and no count changes *)
+Theorem C20_dispatch_routes_to_referent : forall s id m a newid o t,
     dget (objs s) id = Some (SlotE o t) ->
     exposed_of t m = true -> has_attr t m = true -> m2t_of t m = None ->
     let r := apply_local o t m a in
@@ -121,7 +284,7 @@ Theorem C20_dispatch_executes : forall s id m a newid o t,
     (forall id', id' <> id -> dget (objs (snd (dispatch s id m a newid))) id' = dget (objs s) id') /\
     rcs (snd (dispatch s id m a newid)) = rcs s.
 Proof. exact dispatch_executes. Qed.
-Print Assumptions C20_dispatch_executes.
+Print Assumptions C20_dispatch_routes_to_referent.
 
 Theorem C20_dispatch_executes_proxy : forall s id m a newid o t t2,
     inv s -> newid <> 0 ->
@@ -283,3 +446,43 @@ Example C20_witness :
   holders y 1 = 1 /\
   dmem (objs (y_srv (fst (cstep y (K_drop 0))))) 1 = false.
 Proof. split; [repeat constructor; discriminate|vm_compute; repeat split; reflexivity]. Qed.
+
+(* non-vacuity of the positive disposal theorem: three processes, copies, an inherited proxy, a
+   proxy-returning method through the creator's proxy, calls, drops in mixed order; no step loses
+   a reference; at the end the server is as new *)
+Example C20_disposal_witness :
+  let l := [H_create 10 TShelf [AL [7]] 1; H_copy 0 11; H_call 0 M_clone [] 2; H_inherit 1 12;
+            H_call 2 M_append [AZ 3] 9; H_create 11 TDict [] 3; H_drop 0; H_call 1 M_pop [] 9;
+            H_drop 1; H_drop 0; H_call 0 M_len [] 9; H_drop 1; H_drop 0] in
+  Forall hop_ok l /\ leaks_any init_sys l = false /\ no_vanish l /\
+  let (y, obs) := hrun init_sys l in
+  nth 7 obs CO_noop = CO_reply (R_return (VInt 3)) /\
+  nth 10 obs CO_noop = CO_reply (R_return (VInt 1)) /\
+  y_proxies y = [] /\ y_srv y = init_st.
+Proof.
+  cbv zeta. split; [repeat constructor; discriminate|]. split; [vm_compute; reflexivity|].
+  split; [repeat constructor|]. vm_compute. repeat split; reflexivity.
+Qed.
+
+(* non-vacuity of the history theorem (hypotheses satisfiable, several clients interleaved, a
+   failing send, a drop in between) *)
+Example C20_history_witness :
+  let y0 := fst (cstep init_sys (K_create TList [AL [1]] 1)) in
+  Forall ev_ok hist_witness /\ Forall (fresh_for 1) hist_witness /\
+  map fst (calls_on 1 y0 hist_witness)
+  = [(M_append, [AZ 5], O); (M_pop, [], O); (M_pop, [], O); (M_len, [], 1%nat); (M_append, [AZ 6], O)] /\
+  map snd (calls_on 1 y0 hist_witness)
+  = [CO_reply (R_return VNone); CO_reply (R_return (VInt 5)); CO_reply (R_return (VInt 1));
+     CO_reply R_unserializable; CO_reply (R_return VNone)] /\
+  dget (objs (y_srv (fst (crun y0 hist_witness)))) 1 = Some (SlotE (OList [6]) TList).
+Proof. exact hist_witness_ok. Qed.
+
+(* a vanished holder: the child that got the proxy is killed, the parent drops its own proxy, the
+   referent stays for ever *)
+Example C20_vanish_witness :
+  let l := [H_create 10 TList [AL [1]] 1; H_inherit 0 11; H_vanish 1; H_drop 0] in
+  Forall hop_ok l /\
+  let (y, obs) := hrun init_sys l in
+  obs = [CO_ok; CO_ok; CO_ok; CO_ok] /\ y_proxies y = [] /\ y_orphans y = [1] /\
+  dget (objs (y_srv y)) 1 = Some (SlotE (OList [1]) TList) /\ refcount (y_srv y) 1 = 1.
+Proof. cbv zeta. split; [repeat constructor; discriminate|vm_compute; repeat split; reflexivity]. Qed.
